@@ -48,6 +48,10 @@ def build(rng, enz):
             feats.append(Feat(1, "u92", (), ((fs - 1, fs + 2, -1),)))                           # one before the start
         if L >= 4 and fs + L <= n and rng.random() < 0.5:
             feats.append(Feat(2, "u93", (), ((fs, fs + 2, 1), (fs + 2, fs + L, 1))))            # abutting parts
+        if L >= 3 and fs + L <= n and rng.random() < 0.4:
+            # a between-bases site (`p^p+1`, a zero-width location) strictly inside the retained fragment
+            p_ = rng.randrange(fs + 1, fs + L)
+            feats.append(Feat(5, "u95", (), ((p_, p_, rng.choice([1, -1, 0])),)))
         if L >= 4 and fs + L <= n and rng.random() < 0.5:
             a = rng.randrange(fs, fs + L - 3)
             b = rng.randint(a + 1, fs + L - 2)
@@ -88,8 +92,11 @@ def expected_features(meta):
         frag = set((fs + t) % n for t in range(L))
         for f in feats_from_json(m["feats"]):
             pos = [[t % n for t in range(s, e)] for (s, e, st) in f.parts]
-            if all(set(q) <= frag for q in pos):
+            sites = [(s, st) for (s, e, st) in f.parts if s == e]
+            if all(set(q) <= frag for q in pos) and all(fs < p_ < fs + L for p_, _ in sites):
                 mapped = sorted((offset + ((t - fs) % n), st) for q, (s, e, st) in zip(pos, f.parts) for t in q)
+                # a zero-width site keeps its place between the same two nucleotides (strand code 9 marks a site)
+                mapped += sorted((offset + (p_ - fs), 9) for p_, _ in sites)
                 exp.append((f.ftype, f.qual, tuple(mapped)))
                 stats[0] += 1
             else:
@@ -113,7 +120,8 @@ def check_case(ctx, case):
         for pf in impl.canon_record(prod).feats:
             if pf.ftype == 0 and pf.qual in generated:
                 continue        # the provenance feature generated for a fragment of one of the inputs
-            got.append((pf.ftype, pf.qual, tuple(sorted((t % N, st) for (s, e, st) in pf.parts for t in range(s, e)))))
+            got.append((pf.ftype, pf.qual, tuple(sorted((t % N, st) for (s, e, st) in pf.parts for t in range(s, e))
+                                                 + sorted((s % N, 9) for (s, e, st) in pf.parts if s == e))))
         got.sort()
         if got != exp:
             extra = [g for g in got if g not in exp][:2]
